@@ -1,5 +1,5 @@
 """C03 History depth and tag depth equal the longest chains."""
-from ._camp import run_campaign, api_delay_stage
+from ._camp import run_campaign, api_delay_stage, vanishing_object_stage
 from .. import oracle as _O
 
 LEVEL = "exploration"
@@ -22,4 +22,5 @@ def run(chk, b, tier):
                  "chains/forests with shuffled reference names; max_history_depth / max_tag_depth vs DP on the model. "
                  "Non-trivial: at least one merge commit and depth>=2, or a tag chain >=2.", permute=0.3, nsel=2)
     api_delay_stage(chk, b, _O.DEPTH_KEYS + (["reference_count"] if "C03" == "C01" else []), "C03", 6 if tier == "quick" else 150)
+    vanishing_object_stage(chk, b, "C03", _O.DEPTH_KEYS, tier)
     chk.assumptions += ["reference model and generator trusted; generator self-checked against git"]
